@@ -193,7 +193,7 @@ def macro_body(draw, params, lower, use_yield):
             same = [pn for gk, pn in params if gk == lgk]
             if same and draw(st.integers(0, 2)) != 0:
                 pn = draw(st.sampled_from(same))
-                compound = draw(st.integers(0, 2)) == 0      # the parameter is only a part of the argument handed on
+                compound = draw(st.booleans())      # the parameter is only a part of the argument handed on
                 if lgk == "match":
                     args.append(("m", ("cat", (("arg", pn), ("lit", b"x", "str"))) if compound else ("arg", pn)))
                 elif lgk == "expr":
@@ -283,7 +283,7 @@ def macro_program(draw):
             args.append(a)
         if ok:
             calls.append(("call", name, tuple(args)))
-            if params and draw(st.integers(0, 2)) == 0:
+            if params and draw(st.booleans()):
                 # a second expansion of the same macro with (mostly) different arguments
                 args2 = [draw(concrete_arg(gk, {n: p for n, p, _ in order if n != name and n < name}, use_yield)) for gk, pn in params]
                 if all(a is not None for a in args2):
